@@ -119,6 +119,22 @@ def run(tier, replay=None):
                 s["slots"] = s.pop("capacity")
                 s.pop("element_throws_enumerated_on", None)
                 samples.append(s)
+    import shutil
+    if shutil.which("valgrind"):
+        # a small sample under valgrind memcheck on the uninstrumented build (use of uninitialised values)
+        exe = build.build_exe("plain", ["ownhist.cpp"])
+        scale = 1 if tier == "quick" else 8
+        mjobs = [("Q", "rnd", 4, 40, 0, 200 * scale, 64, 0), ("O", "rnd", 3, 30, 0, 200 * scale, 64, 0),
+                 ("Q", "exh", 2, 3, 0, 500 * scale, 256, 0), ("O", "types", 0, 0, 0, 1, 1, 0)]
+        for r in optrun.pmap(fvrun.run_job, [(exe, j, run_.seed, fvrun.MEMCHECK) for j in mjobs]):
+            for p, key, seq, detail, job in r.viol[:10]:
+                run_.violation(("quaint_ptr:" if job[0] == "Q" else "optional:") + key, detail,
+                               {"type": job[0], "cap": job[2], "seq": seq, "tag": "plain+memcheck"})
+            for key, job, index, report in r.crashes[:5]:
+                run_.violation(("quaint_ptr:" if job[0] == "Q" else "optional:") + "crash:" + key, report[-2500:],
+                               {"type": job[0], "cap": job[2], "seq": "", "tag": "plain+memcheck", "job": list(job),
+                                "index": index})
+            stats["histories-under-memcheck"] += r.stats.get("sequences", 0)
     for s in samples:
         run_.sample(s, limit=5)
     # owning wrappers and containers created, moved and destroyed by 2-16 threads at the same time
